@@ -49,16 +49,17 @@ theorem Order_step {P : Params} {A : Assembler} {script : List Item} {s s' : Sta
         split at hs
         · next hlen =>
           injection hs with hs; subst hs
+          strip_gap
           simp only [hpc, hpend, List.length_cons] at h7
           refine ⟨by simpa using h1, by simpa using h2, by simpa using h3, ?_, ?_, ?_, ?_⟩
-          · intro he; have := h4 (by simpa using he); simp only [applyData_iterStart, account_iterStart]; omega
-          · simp only [applyData_iterStart, account_iterStart]; omega
+          · intro he; have := h4 (by simpa using he); simp only [applyData_iterStart, account_iterStart, gapUpd_iterStart]; omega
+          · simp only [applyData_iterStart, account_iterStart, gapUpd_iterStart]; omega
           · intro m hm; by_cases hr : rest = [] <;> simp [hr] at hm
           · by_cases hr : rest = []
             · subst hr
-              simp only [if_true, account_enq, applyData_enq, account_iterStart, applyData_iterStart]
+              simp only [if_true, account_enq, gapUpd_enq, applyData_enq, account_iterStart, gapUpd_iterStart, applyData_iterStart]
               simp only [List.length_nil] at h7; exact ⟨by omega, h7.2⟩
-            · simp only [if_neg hr, account_enq, applyData_enq, account_iterStart, applyData_iterStart]
+            · simp only [if_neg hr, account_enq, gapUpd_enq, applyData_enq, account_iterStart, gapUpd_iterStart, applyData_iterStart]
               exact ⟨by omega, h7.2⟩
         · cases hs
       · cases hs
@@ -71,6 +72,9 @@ theorem Order_step {P : Params} {A : Assembler} {script : List Item} {s s' : Sta
       split at hs
       · split at hs
         · dsimp only at hs
+          split at hs
+          · injection hs with hs; subst hs
+            exact ⟨h1, h2, h3, h4, h5, by simp, by simp⟩
           split at hs <;> (injection hs with hs; subst hs) <;>
           (refine ⟨h1, h2, h3, h4, h5, ?_, by simp⟩
            intro m hm
